@@ -595,6 +595,145 @@ def global_state(files):
     return sorted(set(found))
 
 
+def pub_api(toks):
+    """the public entry points of a source file: `pub fn` items at the top level, `pub fn` methods of
+    inherent impls, and every method of a trait impl – as (qualified name, receiver) with receiver one of
+    `&self`, `&mut self`, `self`, `-`. Private helpers are NOT listed: refactorings that add or rename
+    them leave this list unchanged."""
+    out = []
+    n = len(toks)
+
+    def skip_angles(i):
+        # toks[i] == '<': index after the matching '>'
+        depth = 0
+        while i < n:
+            t = toks[i]
+            if t == ('op', '<'):
+                depth += 1
+            elif t == ('op', '<<'):
+                depth += 2
+            elif t == ('op', '>'):
+                depth -= 1
+            elif t == ('op', '>>'):
+                depth -= 2
+            i += 1
+            if depth <= 0:
+                return i
+        return i
+
+    def receiver(i):
+        # toks[i] == '(' of a fn's parameter list
+        e = match_close(toks, i)
+        inner = toks[i + 1:e]
+        vals = [t[1] for t in inner[:4]]
+        if vals[:1] == ['self'] or vals[:2] == ['mut', 'self']:
+            return 'self'
+        if vals[:2] == ['&', 'self']:
+            return '&self'
+        if vals[:3] == ['&', 'mut', 'self']:
+            return '&mut self'
+        if len(vals) >= 3 and vals[0] == '&' and inner[1][0] == 'lt':
+            if vals[2] == 'self':
+                return '&self'
+            if vals[2:4] == ['mut', 'self']:
+                return '&mut self'
+        return '-'
+
+    def fns_in(body_start, body_end, label, need_pub):
+        i = body_start
+        while i < body_end:
+            t = toks[i]
+            if t[0] == 'op' and t[1] in '{([':
+                i = match_close(toks, i) + 1
+                continue
+            if t == ('id', 'fn') and i + 1 < body_end and toks[i + 1][0] == 'id':
+                is_pub = False
+                k = i - 1
+                while k >= body_start and toks[k][0] == 'id' and toks[k][1] in ('const', 'unsafe', 'async', 'extern'):
+                    k -= 1
+                if k >= body_start and toks[k] == ('op', ')'):
+                    # pub(crate) etc.: not part of the public surface
+                    is_pub = False
+                elif k >= body_start and toks[k] == ('id', 'pub'):
+                    is_pub = True
+                name = toks[i + 1][1]
+                j = i + 2
+                if j < body_end and toks[j] == ('op', '<'):
+                    j = skip_angles(j)
+                if j < body_end and toks[j] == ('op', '('):
+                    if is_pub or not need_pub:
+                        out.append(((label + '::' if label else '') + name, receiver(j)))
+                    j = match_close(toks, j) + 1
+                i = j
+                continue
+            i += 1
+
+    i = 0
+    top_segments = []
+    last = 0
+    while i < n:
+        t = toks[i]
+        if t == ('id', 'impl'):
+            j = i + 1
+            if j < n and toks[j] == ('op', '<'):
+                j = skip_angles(j)
+            # header up to '{'
+            hdr = []
+            depth = 0
+            while j < n and not (toks[j] == ('op', '{') and depth == 0):
+                if toks[j] == ('op', '<'):
+                    depth += 1
+                elif toks[j] == ('op', '>'):
+                    depth -= 1
+                elif toks[j] == ('op', '>>'):
+                    depth -= 2
+                if depth == 0 and toks[j] == ('id', 'where'):
+                    # skip the where clause
+                    while j < n and toks[j] != ('op', '{'):
+                        j += 1
+                    break
+                if depth == 0 or toks[j] == ('id', 'for'):
+                    hdr.append(toks[j])
+                j += 1
+            if j >= n:
+                break
+            e = match_close(toks, j)
+            names = [x[1] for x in hdr if x[0] == 'id']
+            if 'for' in names:
+                k = names.index('for')
+                trait = names[:k][-1] if names[:k] else '?'
+                ty = names[k + 1] if k + 1 < len(names) else '?'
+                fns_in(j + 1, e, '<%s as %s>' % (ty, trait), False)
+            else:
+                ty = names[0] if names else '?'
+                fns_in(j + 1, e, ty, True)
+            top_segments.append((last, i))
+            last = e + 1
+            i = e + 1
+            continue
+        if t == ('id', 'mod') and i + 2 < n and toks[i + 2] == ('op', '{'):
+            e = match_close(toks, i + 2)
+            top_segments.append((last, i))
+            last = e + 1
+            i = e + 1
+            continue
+        if t == ('id', 'trait'):
+            j = i
+            while j < n and toks[j] != ('op', '{'):
+                j += 1
+            e = match_close(toks, j) if j < n else n
+            top_segments.append((last, i))
+            last = e + 1
+            i = e + 1
+            continue
+        i += 1
+    top_segments.append((last, n))
+    for a, b in top_segments:
+        fns_in(a, b, '', True)
+    return sorted(set(out))
+
+
+
 def lean_str(s):
     return '"' + s.replace('\\', '\\\\').replace('"', '\\"') + '"'
 
@@ -827,6 +966,14 @@ def main():
         S.append('def %s : List (String × String) := [%s]' % (
             lean, ', '.join('(%s, %s)' % (lean_str(a), lean_str(b)) for a, b in fields)))
     S.append('def globalState : List String := [%s]' % ', '.join(lean_str(x) for x in global_state(all_files)))
+    S.append('')
+    S.append('-- the public entry points of the modelled files (qualified name, receiver); private helpers are not listed')
+    for lean, file in [('apiObserve', 'observe.rs'), ('apiBlockHandler', 'block_handler/mod.rs'),
+                       ('apiBlockValue', 'block_handler/block_value.rs'), ('apiPacket', 'packet.rs'),
+                       ('apiHeader', 'header.rs'), ('apiRequest', 'request.rs'), ('apiResponse', 'response.rs'),
+                       ('apiLinkFormat', 'link_format.rs')]:
+        S.append('def %s : List (String × String) := [%s]' % (
+            lean, ', '.join('(%s, %s)' % (lean_str(a), lean_str(b)) for a, b in pub_api(byname[file]))))
     S += ['', 'end CoapLite.Shapes', '']
     open(os.path.join(out_dir, 'Shapes.lean'), 'w').write('\n'.join(S))
     import json
